@@ -27,7 +27,19 @@ type tierCfg struct {
 
 // budgets per property and tier; sized from measured throughput so that quick
 // stays around a minute on 16 cores and thorough around a quarter of an hour.
-var budgets = map[string]map[string]tierCfg{}
+var budgets = map[string]map[string]tierCfg{
+	"C01": {"quick": {Runs: 1200000, CapS: 90, DetSeeds: 32, ShrinkS: 20}, "thorough": {Runs: 16000000, CapS: 1200, DetSeeds: 512, ShrinkS: 60}},
+	"C02": {"quick": {Runs: 180000, CapS: 90, DetSeeds: 32, ShrinkS: 20}, "thorough": {Runs: 3000000, CapS: 1200, DetSeeds: 512, ShrinkS: 60}},
+	"C03": {"quick": {Runs: 360000, CapS: 90, DetSeeds: 32, ShrinkS: 20}, "thorough": {Runs: 6000000, CapS: 1200, DetSeeds: 512, ShrinkS: 60}},
+	"C04": {"quick": {Runs: 360000, CapS: 90, DetSeeds: 32, ShrinkS: 20}, "thorough": {Runs: 6000000, CapS: 1200, DetSeeds: 512, ShrinkS: 60}},
+	"C05": {"quick": {Runs: 700000, CapS: 90, DetSeeds: 32, ShrinkS: 20}, "thorough": {Runs: 12000000, CapS: 1200, DetSeeds: 512, ShrinkS: 60}},
+	"C06": {"quick": {Runs: 90000, CapS: 90, DetSeeds: 32, ShrinkS: 20}, "thorough": {Runs: 1500000, CapS: 1200, DetSeeds: 512, ShrinkS: 60}},
+	"C07": {"quick": {Runs: 40000, CapS: 90, DetSeeds: 32, ShrinkS: 20, RaceRuns: 6000}, "thorough": {Runs: 700000, CapS: 1200, DetSeeds: 512, ShrinkS: 60, RaceRuns: 100000}},
+	"C08": {"quick": {Runs: 90000, CapS: 90, DetSeeds: 32, ShrinkS: 20, RaceRuns: 12000}, "thorough": {Runs: 1500000, CapS: 1200, DetSeeds: 512, ShrinkS: 60, RaceRuns: 200000}},
+	"C10": {"quick": {Runs: 180000, CapS: 90, DetSeeds: 32, ShrinkS: 20}, "thorough": {Runs: 3000000, CapS: 1200, DetSeeds: 512, ShrinkS: 60}},
+	"C11": {"quick": {Runs: 500000, CapS: 90, DetSeeds: 32, ShrinkS: 20}, "thorough": {Runs: 8000000, CapS: 1200, DetSeeds: 512, ShrinkS: 60}},
+	"C12": {"quick": {Runs: 700000, CapS: 90, DetSeeds: 32, ShrinkS: 20}, "thorough": {Runs: 12000000, CapS: 1200, DetSeeds: 512, ShrinkS: 60}},
+}
 
 func budget(prop, tier string) tierCfg {
 	if m, ok := budgets[prop]; ok {
